@@ -70,6 +70,7 @@ func TransformModuleFilesToModel( //nolint:funlen,gocognit,cyclop
 	rawTypeDefs := []*openfgav1.TypeDefinition{}
 	types := []string{}
 	extendedTypeDefs := map[string][]*openfgav1.TypeDefinition{}
+	extendedFiles := []string{} // files with extensions, in the order they were given
 	conditions := map[string]*openfgav1.Condition{}
 	moduleFiles := map[string][]string{}
 
@@ -121,6 +122,7 @@ func TransformModuleFilesToModel( //nolint:funlen,gocognit,cyclop
 			if extension {
 				if extendedTypeDefs[module.Name] == nil {
 					extendedTypeDefs[module.Name] = []*openfgav1.TypeDefinition{}
+					extendedFiles = append(extendedFiles, module.Name)
 				}
 
 				extendedTypeDefs[module.Name] = append(extendedTypeDefs[module.Name], typeDef)
@@ -142,7 +144,16 @@ func TransformModuleFilesToModel( //nolint:funlen,gocognit,cyclop
 			rawTypeDefs = append(rawTypeDefs, typeDef)
 		}
 
-		for name, condition := range mdl.GetConditions() {
+		conditionNames := make([]string, 0, len(mdl.GetConditions()))
+		for name := range mdl.GetConditions() {
+			conditionNames = append(conditionNames, name)
+		}
+
+		slices.Sort(conditionNames)
+
+		for _, name := range conditionNames {
+			condition := mdl.GetConditions()[name]
+
 			if _, ok := conditions[name]; ok {
 				lineIndex := utils.GetConditionLineNumber(name, lines)
 				line, col := utils.ConstructLineAndColumnData(lines, lineIndex, name)
@@ -163,7 +174,8 @@ func TransformModuleFilesToModel( //nolint:funlen,gocognit,cyclop
 		}
 	}
 
-	for filename, typeDefs := range extendedTypeDefs {
+	for _, filename := range extendedFiles {
+		typeDefs := extendedTypeDefs[filename]
 		lines := moduleFiles[filename]
 
 		for _, typeDef := range typeDefs {
@@ -213,7 +225,16 @@ func TransformModuleFilesToModel( //nolint:funlen,gocognit,cyclop
 				existingRelationNames = append(existingRelationNames, name)
 			}
 
-			for name, relation := range typeDef.GetRelations() {
+			relationNames := make([]string, 0, len(typeDef.GetRelations()))
+			for name := range typeDef.GetRelations() {
+				relationNames = append(relationNames, name)
+			}
+
+			slices.Sort(relationNames)
+
+			for _, name := range relationNames {
+				relation := typeDef.GetRelations()[name]
+
 				if slices.Contains(existingRelationNames, name) {
 					lineIndex := utils.GetRelationLineNumber(name, lines)
 					line, col := utils.ConstructLineAndColumnData(lines, lineIndex, name)
